@@ -7,14 +7,14 @@ MODE = "corpus"
 EXPLANATION = ("Bounded model checking with fault injection: for every corpus class, serialize runs over valid and single-violation objects with a symbolic entry mode and a writer that raises at its "
                "k-th call (k value-forked over every call index), deserialize runs over all byte strings of length n with both entry modes and a reader that raises at its k-th call. "
                "On every path - returning, SerializationError, ValueError, injected fault - z3 decides mode-after == mode-before.")
-BOUNDS = {"quick": "every class of corpus/core plus a VERIF_SEED-chosen sample of 70 structs of the generated pair corpus; serialize: strings 0/1, arrays 0/1, every violation site, fault at call k for k = 0..12; deserialize: every byte string of length 0..3, fault at call k = 0..8, decoded counts up to 6",
+BOUNDS = {"quick": "every class of corpus/core plus a VERIF_SEED-chosen sample of 70 structs of the generated pair corpus; serialize: strings 0/1, arrays 0/1, every violation site, fault at call k for every k up to min(12, static bound on the number of calls + 1); deserialize: every byte string of length 0..3, fault at every call k up to min(8, static bound + 1), decoded counts up to 6",
           "thorough": "core corpus (per class the richest lens/counts configuration up to 2 whose structure count stays <= 60) plus ALL structs of the generated pair corpus; k up to 24; deserialize lengths 0..5, k up to 16"}
-OUTSIDE = "specifications not in the corpus; faults other than an exception raised by a reader/writer method"
+OUTSIDE = "specifications not in the corpus (the nesting clause is checked as wire/reading equality with O-xml on every corpus class that nests a structure); faults other than an exception raised by a reader/writer method"
 ASSUMPTIONS = ["faults are exceptions raised by public add_*/get_*/next_chunk methods of a reader/writer subclass"]
 
 
 def trees(tier):
-    return [("core", corpus.CORE), ("pairs", corpus.pairs(tier, corpus.seed(), 70, False)[0])]
+    return [("core", corpus.CORE), ("pairs", corpus.pairs(tier, corpus.seed(), 70, False)[0]), ("pairs2", corpus.pairs(tier, corpus.seed())[0])]
 
 
 def programs(tier):
@@ -30,20 +30,40 @@ def jobs(tier):
     for c in cls:
         ccfg = cfg if q else corpus.choose_cfg(types, c["instrs"], [{"lens": [0, 1], "counts": [0, 1]}, {"lens": [0, 1], "counts": [0, 1, 2]}, {"lens": [0, 1, 2], "counts": [0, 1, 2]}], 60)
         sites = count_sites(types, c["instrs"], max(ccfg["counts"]) + 1)
-        js.append(dict(name=f"serialize_modes[{c['name']}]", fn="serialize_modes", args=[corpus.closure(types, c["instrs"]), c, ccfg, sites + 2, 12 if q else 24], tree="core",
+        js.append(dict(name=f"serialize_modes[{c['name']}]", fn="serialize_modes", args=[corpus.closure(types, c["instrs"]), c, ccfg, sites + 2, min(12 if q else 24, corpus.calls_bound(types, c["instrs"], max(ccfg["counts"])) + 1)], tree="core",
                        collect_models=1, expect=["writer sanitisation mode is what it was on entry"]))
         for n in range(0, (3 if q else 5) + 1):
-            js.append(dict(name=f"deserialize_modes[{c['name']},n={n}]", fn="deserialize_modes", args=[corpus.closure(types, c["instrs"]), c, n, 8 if q else 16, 6 if q else 24], tree="core",
+            js.append(dict(name=f"deserialize_modes[{c['name']},n={n}]", fn="deserialize_modes", args=[corpus.closure(types, c["instrs"]), c, n, min(8 if q else 16, corpus.calls_bound(types, c["instrs"], n + 1) + 1), 6 if q else 24], tree="core",
                            collect_models=1, expect=["reader chunked mode is what it was on entry"]))
         js.append(dict(name=f"nested[{c['name']}]", fn="nested_not_chunked", args=[corpus.closure(types, c["instrs"]), c, cfg if q else ccfg], tree="core", collect_models=1))
+    def nests(instrs):
+        for i in instrs:
+            if i[0] in ("field", "array") and i[2][0] == "struct":
+                return True
+            if i[0] == "chunked" and nests(i[1]):
+                return True
+            if i[0] == "switch" and any(nests(c[3]) for c in i[2]):
+                return True
+        return False
+    _, atypes, acls = corpus.pairs(tier, corpus.seed())          # the nesting clause uses the larger pair sample
+    for src, tname, tt, cc in [("", "core", types, cls), ("pairs:", "pairs2", atypes, acls)]:
+        for c in cc:
+            if not nests(c["instrs"]):
+                continue
+            t = corpus.closure(tt, c["instrs"])
+            js.append(dict(name=f"nested_sanitised[{src}{c['name']}]", fn="nested_sanitised", args=[t, c, {"lens": [0, 1], "counts": [0, 1]}], tree=tname, collect_models=1,
+                           expect=["serialized length equals the prescribed length"]))
+            for n in ((2, 3) if q else (1, 2, 3, 4)):
+                js.append(dict(name=f"nested_read[{src}{c['name']},n={n}]", fn="nested_read", args=[t, c, n, 6], tree=tname, collect_models=1,
+                               expect=["reader mode restored"]))
     _, ptypes, pcls = corpus.pairs(tier, corpus.seed(), 70, False)
     pcfg = {"lens": [0, 1], "counts": [0, 1]}
     for c in pcls:
         t = corpus.closure(ptypes, c["instrs"])
         sites = count_sites(ptypes, c["instrs"], 2)
-        js.append(dict(name=f"serialize_modes[pairs:{c['name']}]", fn="serialize_modes", args=[t, c, pcfg, sites + 2, 8 if q else 12], tree="pairs",
+        js.append(dict(name=f"serialize_modes[pairs:{c['name']}]", fn="serialize_modes", args=[t, c, pcfg, sites + 2, min(8 if q else 12, corpus.calls_bound(ptypes, c["instrs"], 1) + 1)], tree="pairs",
                        collect_models=1, expect=["writer sanitisation mode is what it was on entry"]))
         for n in ((2,) if q else (1, 3)):
-            js.append(dict(name=f"deserialize_modes[pairs:{c['name']},n={n}]", fn="deserialize_modes", args=[t, c, n, 6 if q else 10, 6], tree="pairs",
+            js.append(dict(name=f"deserialize_modes[pairs:{c['name']},n={n}]", fn="deserialize_modes", args=[t, c, n, min(6 if q else 10, corpus.calls_bound(ptypes, c["instrs"], n + 1) + 1), 6], tree="pairs",
                            collect_models=1, expect=["reader chunked mode is what it was on entry"]))
     return js
